@@ -85,7 +85,7 @@ def _gen_cases(tier, seed):
         # the process is one recreated from a checkpoint and / or its observers and cleanups are broken (all tolerated faults: the
         # lifecycle is the same)
         for i, plan in enumerate([[]] + list(plans.all_placements(n, ALPHABET, 1))):
-            for variant in ({'listener': 'raising-base'}, {'listener': 'checkpointing'}, {'recreate': 'created', 'listener': 'checkpointing'}, {'recreate': 'created', 'listener': 'raising'}, {'recreate': 'created', 'listener': 'raising-terminal'}, {'listener': 'raising-terminal'}, {'listener': 'raising', 'failing_cleanups': True}, {'listener': True, 'failing_cleanups': 'base'},
+            for variant in ({'listener': 'raising-base'}, {'listener': 'checkpointing'}, {'recreate': 'created', 'listener': 'checkpointing'}, {'recreate': 'created', 'listener': 'raising'}, {'recreate': 'created', 'listener': 'raising-terminal'}, {'listener': 'raising-terminal'}, {'listener': 'raising', 'failing_cleanups': True}, {'listener': True, 'failing_cleanups': 'base'}, {'listener': 'detaching'},
                             {'recreate': 'created', 'listener': True, 'failing_cleanups': True}):
                 yield dict({'name': name, 'program': prog, 'plan': plans.uniq(plan, 'r%d' % i), 'drain': True, 'barrage': True, 'probe': False}, **variant)
 
